@@ -85,7 +85,7 @@ class C10:
     tables = True
     rule = (
         "cases = (registered variable or name pattern, generated valid typed value) round trips, and histories of 12 ops over {set, del, append through a fresh read, append through "
-        "a held reference, swap scope, `$K=v cmd` overlay, UPDATE_OS_ENVIRON toggle, detype() read, launch via prep_env_subproc, launch of a real `env -0` child}; "
+        "a held reference, swap scope, `$K=v cmd` overlay, UPDATE_OS_ENVIRON toggle, judged detype() read, in-place $LS_COLORS colour/target edits, launch via prep_env_subproc (plain, in a swap, with spec env, inside nested overlay frames with masks), launch of a real `env -0` child}; "
         "distinct_nontrivial = distinct (variable, value) pairs plus distinct histories containing a mutation followed by a launch"
     )
     assumptions = [
